@@ -12,6 +12,7 @@ import Larking.Model.Streams
 import Larking.Model.Param
 import Larking.Model.Registry
 import Larking.Model.Events
+import Larking.Model.Proxy
 import Larking.Gen.Params
 import Larking.Gen.Lexer
 namespace Larking.Driver
@@ -425,8 +426,36 @@ def handleEvents : List String → Option String
       pure (",".intercalate (evs.map showEv) ++ "|" ++ endS)
   | _ => none
 
+/-! ### C10: the stream forwarder -/
+
+/-- the harness's scripted backend: reads everything until half-close, then `replies` replies
+(one for a single-response call), failing with `code` after `failAt` replies (-2: never,
+i.e. after the last one only when code ≠ 0 … see c10.go). -/
+def scriptedBackend (ss : Bool) (replies code : Nat) (failAt : Int) : Proxy.Backend Nat Nat :=
+  fun _ms hc =>
+    if !hc then ([], none) else
+    let n := if ss then replies else 1
+    if code != 0 && failAt >= 0 && failAt.toNat < n then (List.range failAt.toNat, some ⟨code, 1⟩)
+    else if code != 0 && failAt != -2 then (List.range n, some ⟨code, 1⟩)
+    else (List.range n, some Proxy.Status.ok)
+
+def handleProxy : List String → Option String
+  | ["proxy", cs, ss, nmsg, replies, code, failAt] => do
+      let n ← nmsg.toNat?
+      let r ← replies.toNat?
+      let c ← code.toNat?
+      let f ← failAt.toInt?
+      let seen := Proxy.streamProxy (true, true, true, none) true (cs == "true") (ss == "true")
+        (scriptedBackend (ss == "true") r c f) (List.range n)
+      let st := match seen.clientStatus with
+        | some s => toString s.code
+        | none => "never"
+      pure (toString seen.backendGot.length ++ "," ++ toString seen.backendHalfClosed ++ "," ++
+            toString seen.clientGot.length ++ "," ++ st)
+  | _ => none
+
 def handlers : List (List String → Option String) :=
-  [handleC05, handleC14C15, handleC17, handleC19, handleC04, handleRouting, handleStreams, handleParams, handleRegistry, handleEvents]
+  [handleC05, handleC14C15, handleC17, handleC19, handleC04, handleRouting, handleStreams, handleParams, handleRegistry, handleEvents, handleProxy]
 
 def handle (args : List String) : String :=
   match handlers.findSome? (fun h => h args) with
